@@ -268,7 +268,13 @@ def generate(rng: random.Random, tier: str) -> dict:
         "big_endian_input": np.dtype(dtype).itemsize > 1 and rng.random() < 0.08,
         # GDAL-style keyword spelling of the codec level
         "gdal_level_kw": rng.random() < 0.15,
+        # an earlier save in the same process (another small image, another codec setting), optionally handing the same
+        # compressionargs dict to both calls: what one call leaves behind - in module state, in default arguments, in the
+        # caller's own dict - must not reach the next
+        "prelude": None,
     }
+    if rng.random() < 0.12:
+        cfg["prelude"] = {"compression": rng.choice(["lerc_zstd", "lerc_deflate", "zstd", "deflate", "lerc"]), "level": rng.choice([None, 9, 1]), "gdal_level_kw": rng.random() < 0.3, "shared_args": rng.random() < 0.5}
     if not big and rng.random() < 0.10:
         # sink pressure: the conjunction under which several tasks make part writes of their own, and early -
         # incompressible pixels, tiles of 8 KiB and more, a small spill threshold, several writes per chunk,
@@ -467,6 +473,8 @@ def _execute(record: dict, rng: Optional[random.Random]) -> Outcome:
         "sink_s3_cluster": 0,
         "sink_cross_device": 0,
         "destination_existed": 0,
+        "earlier_save_in_same_process": 0,
+        "compressionargs_dict_reused": 0,
         "trace_sinks": 0,
         "trace_tiles": 0,
         "trace_all": 0,
@@ -583,6 +591,26 @@ def _execute(record: dict, rng: Optional[random.Random]) -> Outcome:
                 else:
                     probes["sink_s3_inproc"] = 1
                     cluster.default_client = None
+            pre = cfg.get("prelude")
+            if pre and ("uint16", pre["compression"], "unset") in set(map(tuple, (CODEC_DOMAIN or {"ok": []})["ok"])):
+                probes["earlier_save_in_same_process"] = 1
+                shared_args: Dict[str, Any] = {}
+                pkw: Dict[str, Any] = {"compression": pre["compression"], "stats": False}
+                if pre["compression"] in ("zstd", "deflate") and pre["level"] is not None:
+                    if pre["gdal_level_kw"]:
+                        pkw[{"zstd": "ZSTD_LEVEL", "deflate": "ZLEVEL"}[pre["compression"]]] = pre["level"]
+                    else:
+                        pkw["level"] = pre["level"]
+                elif pre["compression"].startswith("lerc_") and pre["gdal_level_kw"]:
+                    pkw[{"lerc_zstd": "ZSTD_LEVEL", "lerc_deflate": "ZLEVEL"}[pre["compression"]]] = 5
+                if pre["shared_args"]:
+                    pkw["compressionargs"] = shared_args
+                    kw["compressionargs"] = shared_args
+                    probes["compressionargs_dict_reused"] = 1
+                pimg = (np.arange(20 * 24, dtype="uint16").reshape(20, 24) * 37 + 3) % 4001
+                pgb = GeoBox((20, 24), Affine(*aff), crs)
+                pfut = save_cog_with_dask(wrap_xr(da.from_array(pimg.astype("uint16"), chunks=(16, 16), name=f"pre-{cfg['uuid_seed']:032x}"), pgb), str(tmp / "prelude.tif"), blocksize=[16], **pkw)
+                dask.compute(pfut, scheduler="synchronous")
             fut = save_cog_with_dask(xx, dst_arg, **kw)
             workers = dcfg["workers"]
             # worker threads are pre-empted at every line of the sink files and - "trace" knob - of the tile
@@ -935,7 +963,7 @@ def candidates(record: dict) -> Iterable[dict]:
             c["config"]["sink"] = "s3"
             yield c
     for k, simple in (
-        ("place", "default"), ("dst_exists", False), ("noise", False), ("stats", False), ("bigtiff", True), ("nodata", None), ("level", None), ("spill_sz", "default"), ("wpc", "default"),
+        ("place", "default"), ("dst_exists", False), ("prelude", None), ("noise", False), ("stats", False), ("bigtiff", True), ("nodata", None), ("level", None), ("spill_sz", "default"), ("wpc", "default"),
         ("resampling", "nearest"), ("predictor", "unset"), ("blocksize", [16]), ("blocksize", [32]), ("band_chunk", "all"), ("crs", 4326), ("gbox", "std"),
     ):
         if cfg.get(k) != simple and not (k == "place" and cfg["sink"] != "file"):
